@@ -148,6 +148,9 @@ pub trait Property: 'static {
     const LEVEL: &'static str;
     type Scenario: Serialize + DeserializeOwned + Clone + Send + Sync + 'static;
 
+    /// true for properties whose violations are themselves nondeterminism (C01): a violation that does
+    /// not reproduce on re-execution is still reported, with the originally observed message.
+    const VIOLATION_MAY_NOT_REPRODUCE: bool = false;
     /// How cases are generated and what makes one non-trivial / distinct (goes into evidence).
     fn rule() -> String;
     fn components_real() -> Vec<&'static str>;
@@ -205,7 +208,15 @@ pub fn install_panic_hook() {
             .map(|l| format!("{}:{}", l.file(), l.line()))
             .unwrap_or_default();
         if QUIET.with(|q| q.get()) {
-            LAST_PANIC.with(|p| *p.borrow_mut() = Some(format!("{msg} @ {loc}")));
+            // keep the first panic of a chain (tokio re-panics "a spawned task panicked ..." afterwards)
+            LAST_PANIC.with(|p| {
+                let mut p = p.borrow_mut();
+                *p = Some(match p.take() {
+                    None => format!("{msg} @ {loc}"),
+                    Some(first) if first.len() < 600 => format!("{first} | then: {msg} @ {loc}"),
+                    Some(first) => first,
+                });
+            });
         } else {
             default(info);
         }
@@ -215,6 +226,9 @@ pub fn install_panic_hook() {
 /// Run `f`, turning a panic into `Err(message @ location)` without printing.
 pub fn catch<R>(f: impl FnOnce() -> R) -> Result<R, String> {
     let prev = QUIET.with(|q| q.replace(true));
+    if !prev {
+        LAST_PANIC.with(|p| *p.borrow_mut() = None);
+    }
     let r = catch_unwind(AssertUnwindSafe(f));
     QUIET.with(|q| q.set(prev));
     match r {
@@ -663,8 +677,10 @@ pub fn check<P: Property>(opt: &Options) -> i32 {
             let (p2, rv2) = write_replay::<P>(&replay_dir, &name, seed, f.idx, f.variant, false, &f.sc);
             if let Some(v2) = rv2 {
                 violations.push((p2, v2));
+            } else if P::VIOLATION_MAY_NOT_REPRODUCE {
+                violations.push((p2, Violation::new(&f.v.class, format!("{} [observed once; did not recur when the replay file was written — the divergence is itself nondeterministic]", f.v.message))));
             } else {
-                eprintln!("harness error: violation at idx={} does not reproduce on re-execution (nondeterministic run)", f.idx);
+                eprintln!("harness error: violation at idx={} does not reproduce on re-execution (nondeterministic run): {} {}", f.idx, f.v.class, f.v.message);
                 return 2;
             }
         } else {
